@@ -12,7 +12,7 @@ TIERS = {
 }
 
 
-def iter_cases(ctx, conf, init_variants=True, want_random=True):
+def iter_cases(ctx, conf, init_variants=True, want_random=True, with_reuse=True):
     """Yield (v, params, kind, delivery, origin)."""
     nk, nd = len(tok.KIND_NAMES), len(tok.DELIVERY)
     c = 0
@@ -54,6 +54,21 @@ def iter_cases(ctx, conf, init_variants=True, want_random=True):
         v = G.structured_random(rng, params, conf["max_frames"])
         c += 1
         yield v, params, rng.choice(tok.KIND_NAMES), rng.choice(tok.DELIVERY), "random"
+        if (c & 255) == 0 and ctx.out_of_time():
+            return
+    # the same tokenizer OBJECT used on another stream first: every token of the second use is still bound by the property
+    if not with_reuse:
+        return
+    rng = ctx.rng("reuse")
+    small = plain + (G.param_tuples(4, init=True) if init_variants else [])
+    for i in range(conf["random"]):
+        params = small[rng.randrange(len(small))] if i % 2 else G.random_params(rng, 8, init=None if init_variants else False)
+        v1 = G.structured_random(rng, params, 14)[:14]
+        v = G.structured_random(rng, params, 30)
+        use = rng.choice(tok.PRIOR_USES)
+        delivery = f"{rng.choice(tok.DELIVERY)}|prior={''.join('A' if x else 'a' for x in v1)}|use={use}|j={rng.randint(0, 2)}"
+        c += 1
+        yield v, params, rng.choice(tok.KIND_NAMES), delivery, "reuse"
         if (c & 255) == 0 and ctx.out_of_time():
             return
 
